@@ -358,6 +358,7 @@ func (c *Ctx) c17Others() {
 				ok, why := c.RequireAt(dp, errNilOf(post, "swap succeeded"))
 				R.Check("R2", fk, "inputs deleted <= swap succeeded", c.P.InstrPos(dp), ok, "the swapped inputs leave the spendable bucket only after the mint accepted the swap", why)
 			}
+			c.ruleSwapInputsRemovedFirst("R2")
 			saves := c.callsOfWalletDB(f, "SaveProofs")
 			for _, r := range o.SuccessReturns() {
 				ok, why := false, "no save of the change"
@@ -577,6 +578,8 @@ func rulesC18(c *Ctx) {
 	R.Rule("R4", "every keyset entry the wallet keeps in memory carries that keyset's fee (from the mint's answer, from storage or from the entry it replaces)", 4)
 	c.c18KeysetEntriesCarryFee()
 	c.c18SendSplit()
+	R.Rule("R5", "a swap that the mint accepted removes its inputs from the spendable bucket before anything can fail (a later exact selection must not hand out spent proofs; shared with C17.R2)", 1)
+	c.ruleSwapInputsRemovedFirst("R5")
 
 	if f := c.fn("R1", "wallet.(*Wallet).getProofsForAmount"); f != nil {
 		fk := c.P.FuncKey(f)
@@ -1148,4 +1151,52 @@ func (c *Ctx) c17ClientReadsWholeBody() {
 	}
 	R.Check("R9", "wallet/client", "response bodies are read without a size cap", "wallet/client/client.go", len(caps) == 0,
 		"the client decodes the mint's complete answer", strings.Join(caps, "; "))
+}
+
+// ruleSwapInputsRemovedFirst (shared: C17.R2, C18.R5): once the mint accepted the swap in swapToSend the
+// inputs are spent; removing them from the spendable bucket is the first thing that happens, before any step
+// that can fail and leave them counted (and later handed out) as spendable.
+func (c *Ctx) ruleSwapInputsRemovedFirst(rule string) {
+	R := c.R
+	f := c.fn(rule, "wallet.(*Wallet).swapToSend")
+	if f == nil {
+		return
+	}
+	fk := c.P.FuncKey(f)
+	o := c.P.OriginsOf(f)
+	var post ssa.CallInstruction
+	for _, ci := range Calls(f) {
+		if c.P.Describe(ci).Name == "wallet/client.PostSwap" {
+			post = ci
+		}
+	}
+	if post == nil {
+		R.Unresolved(rule, "swap request in "+fk, "no PostSwap call")
+		return
+	}
+	cutD := NewCut()
+	nb := 0
+	for _, cc := range c.opCallsOfWalletDB(f, "DeleteProof") {
+		in := c.siteIn(f, cc.CI)
+		if in == nil {
+			continue
+		}
+		if l := o.Loops.InnermostContaining(in.Block()); l != nil && len(l.Header.Instrs) > 0 {
+			cutD.Barriers[l.Header.Instrs[0]] = true
+		} else {
+			cutD.Barriers[in] = true
+		}
+		nb++
+	}
+	okD, whyD := nb > 0, "no removal of the inputs found"
+	for e := range o.AcceptEdges(errNilOf(post, "swap succeeded")) {
+		for _, r := range Returns(f) {
+			if reach, path := Reach(Point{e.To(), 0}, PointOf(r), cutD); reach {
+				okD = false
+				whyD = "return at " + c.P.InstrPos(r) + " reachable after the accepted swap with the spent inputs still in the spendable bucket: " + c.P.PathString(path)
+			}
+		}
+	}
+	R.Check(rule, fk, "swap accepted => inputs removed before anything can fail", c.P.InstrPos(post), okD,
+		"after the mint accepted the swap the inputs leave the spendable bucket before any fallible step", whyD)
 }
